@@ -1162,13 +1162,13 @@ def ccmp(ir, instr, arg1, arg2, arg3, arg4):
     e = []
     if(arg2.is_int()):
         arg2=ExprInt(int(arg2),arg1.size)
-    default_nf = arg3[0:1]
-    default_zf = arg3[1:2]
-    default_cf = arg3[2:3]
-    default_of = arg3[3:4]
+    default_nf = arg3[3:4]
+    default_zf = arg3[2:3]
+    default_cf = arg3[1:2]
+    default_of = arg3[0:1]
     cond_expr = cond2expr[arg4.name]
     res = arg1 - arg2
-    new_nf = nf
+    new_nf = update_flag_nf(res)[0].src
     new_zf = update_flag_zf(res)[0].src
     new_cf = update_flag_sub_cf(arg1, arg2)[0].src
     new_of = update_flag_sub_of(arg1, arg2)[0].src
